@@ -210,7 +210,7 @@ RULE = ("case = (obtain form x alias wrapper x call site x argument form x calla
         "function / another proxy, __class__-forwarding proxy around a function / bound method, bound method "
         "of a proxy, metaclass attribute / property / __getattr__ of an instantiated class] x mark [unsafe, "
         "alters_data, override attribute] x value [true, false] x obtain x wrapper x site x arguments x "
-        "environment kind x sync/async x extension set): every (form, mark, value) row with 3 (thorough: 10) "
+        "environment kind x sync/async x extension set): every (form, mark, value) row with 3 (thorough: 8) "
         "rotating sites, the first at the print site, plus seeded sampling; counted only when the marker-free "
         "twin of the same construction is invoked; expected verdict = getattr on the called object")
 LEVEL_TEXT = ("marker visibility: on every reached (form, mark, value) row the call was refused (0 invocations, "
@@ -2755,7 +2755,7 @@ def run(ctx):
     # how the marker is visible on the called object: (form, mark, value) rows x rotating sites
     nvs = 0
     vs = 0
-    per_row = 3 if quick else 10
+    per_row = 3 if quick else 8
     t_vs = ctx.elapsed()
     for i, (vis, mark, value) in enumerate(VS.rows()):
         if not ctx.mine(i):
@@ -2771,7 +2771,7 @@ def run(ctx):
                 vs += 1
                 ctx.sample(dict(case, source=compose(case)[0]))
     rng = ctx.rng("visiblerand")
-    for _ in range(25 if quick else 400):
+    for _ in range(25 if quick else 300):
         run_visible_case(ctx, visible_random_case(rng))
     ctx.count("visible_core_cases", nvs)
     ctx.extra["visible_part_seconds_all_shards"] = round(ctx.elapsed() - t_vs, 2)
